@@ -7,6 +7,9 @@ From Coq Require Import ZArith List Bool Arith Lia ZifyBool Permutation QArith Q
 From NV.C16 Require Import Model Proofs1 Proofs2 Proofs3 ProofsSrc FibreModel FibreProofs.
 From NV.Generated Require Import QuantileMacros FffBlas.
 From NV.C16 Require Import BlasModel BlasProofs.
+From NV.C16 Require Import Blas1Model Blas1Proofs.
+From NV.Generated Require Import FffBlas1.
+From Coq Require String.
 From Coq Require Import Ring.
 From Coq Require Import Qabs.
 From NV.C16 Require Import SplineModel SplineProofs.
@@ -600,3 +603,79 @@ Example sample_extent2_example :
 Proof. split; reflexivity. Qed.
 
 End SplineProperties.
+
+(* ================================================================ fff_blas.c, level 1 *)
+Section Blas1Properties.
+Import Coq.Strings.String.
+Import Blas1Model Blas1Proofs FffBlas1.
+Local Open Scope Q_scope.
+
+(* tie to the source: every level-1 wrapper hands its vector (size, data, stride) to the
+   Fortran kernel of the SAME name and returns the kernel's result unchanged (idamax: - 1
+   for the C index); translated from the current fff_blas.c (Generated/FffBlas1.v). *)
+Theorem blas1_wrappers_call_their_kernels :
+  map (fun c => (b1_wrapper c, b1_kernel c, b1_args c, b1_offset c, b1_guard c)) fff_blas1_calls =
+  [ ("ddot", "ddot", ["x.size"; "x.data"; "x.stride"; "y.data"; "y.stride"], 0%Z, true);
+    ("dnrm2", "dnrm2", ["x.size"; "x.data"; "x.stride"], 0%Z, false);
+    ("dasum", "dasum", ["x.size"; "x.data"; "x.stride"], 0%Z, false);
+    ("idamax", "idamax", ["x.size"; "x.data"; "x.stride"], (-1)%Z, false);
+    ("dswap", "dswap", ["x.size"; "x.data"; "x.stride"; "y.data"; "y.stride"], 0%Z, true);
+    ("dcopy", "dcopy", ["x.size"; "x.data"; "x.stride"; "y.data"; "y.stride"], 0%Z, true);
+    ("daxpy", "daxpy", ["x.size"; "&alpha"; "x.data"; "x.stride"; "y.data"; "y.stride"], 0%Z, true);
+    ("dscal", "dscal", ["x.size"; "&alpha"; "x.data"; "x.stride"], 0%Z, false);
+    ("drotg", "drotg", ["a"; "b"; "c"; "s"], 0%Z, false);
+    ("drot", "drot", ["x.size"; "x.data"; "x.stride"; "y.data"; "y.stride"; "&c"; "&s"], 0%Z, true);
+    ("drotmg", "drotmg", ["d1"; "d2"; "b1"; "&b2"; "P"], 0%Z, false) ]%string.
+Proof. vm_compute. reflexivity. Qed.
+Print Assumptions blas1_wrappers_call_their_kernels.
+
+(* the Euclidean norm is determined by r >= 0 /\ r^2 = sum x_i^2 ... *)
+Theorem nrm2_value_unique : forall x r s, is_nrm2 x r -> is_nrm2 x s -> r == s.
+Proof. intros x r s [H1 E1] [H2 E2]. exact (nrm2_unique r s (qsumsq x) H1 H2 E1 E2). Qed.
+Print Assumptions nrm2_value_unique.
+
+(* ... is homogeneous: ||c x|| = |c| ||x|| for EVERY rational c (so the value at magnitude
+   2^k x is exactly 2^k times the value at x - no magnitude is special) ... *)
+Theorem nrm2_homogeneous : forall c x r, is_nrm2 x r -> is_nrm2 (scal c x) (Qabs c * r).
+Proof. exact nrm2_scal. Qed.
+Print Assumptions nrm2_homogeneous.
+
+(* ... and lies between max |x_i| and sqrt(n) max |x_i| (squared form): for finite doubles
+   of any magnitude the norm is an ordinary number of the same magnitude. *)
+Theorem nrm2_between_max_and_sqrt_n_max : forall x r m, is_nrm2 x r ->
+  (forall a, In a x -> a * a <= m) ->
+  (forall a, In a x -> a * a <= r * r) /\ r * r <= inject_Z (Z.of_nat (List.length x)) * m.
+Proof.
+  intros x r m [_ E] H. split.
+  - intros a Ha. rewrite E. apply sumsq_ge_each. exact Ha.
+  - rewrite E. apply sumsq_le_n_max. exact H.
+Qed.
+Print Assumptions nrm2_between_max_and_sqrt_n_max.
+
+Theorem dot_laws : forall c x y,
+  qdot x y == qdot y x /\ qdot (scal c x) y == c * qdot x y /\ qsumsq x == qdot x x /\ 0 <= qsumsq x.
+Proof.
+  intros c x y. split; [apply dot_comm|]. split; [apply dot_scal_l|]. split; [reflexivity|apply sumsq_nonneg].
+Qed.
+Print Assumptions dot_laws.
+
+Theorem asum_laws : forall c x, 0 <= qasum x /\ qasum (scal c x) == Qabs c * qasum x.
+Proof. intros c x. split; [apply asum_nonneg|apply asum_scal]. Qed.
+Print Assumptions asum_laws.
+
+(* idamax - 1 is the FIRST index of an entry of maximal absolute value *)
+Theorem iamax_first_maximiser : forall x, x <> [] ->
+  (iamax x < List.length x)%nat /\
+  (forall j, (j < List.length x)%nat -> Qabs (nth j x 0) <= Qabs (nth (iamax x) x 0)) /\
+  (forall j, (j < iamax x)%nat -> Qabs (nth j x 0) < Qabs (nth (iamax x) x 0)).
+Proof. exact iamax_spec. Qed.
+Print Assumptions iamax_first_maximiser.
+
+Example blas1_values :
+  nrm2_exactb [3 # 1; -4 # 1; 0; 12 # 1] (13 # 1) = true /\
+  nrm2_exactb (scal (2 ^ 600) [3 # 1; 4 # 1]) (5 * 2 ^ 600) = true /\
+  nrm2_exactb (scal (1 # 2 ^ 600) [3 # 1; 4 # 1]) (5 # 2 ^ 600) = true /\
+  iamax [1; -7 # 1; 7 # 1; 2 # 1] = 1%nat /\ qasum [1; -7 # 1; 2 # 1] == 10 # 1 /\
+  ql_eqb (axpy (2 # 1) [1; 2 # 1] [10 # 1; 20 # 1]) [12 # 1; 24 # 1] = true.
+Proof. repeat split; vm_compute; reflexivity. Qed.
+End Blas1Properties.
